@@ -188,6 +188,7 @@ Proof.
     + now destruct (I4 tk c0 H H0).
     + intros tk d H H0. eapply device_ok_mono; [apply (I6 tk d H H0)|intros x Hx; right; exact Hx|auto].
   - (* decide *)
+    destruct (find_dev (s_devices s) dev) as [dv0|] eqn:Edv; [|exact Hs].
     cbn [fst]. unfold Inv. cbn [s_codes s_issued s_devices s_decisions s_tokens s_now s_next].
     repeat split; auto.
     + now destruct (I4 tk c H H0).
